@@ -14,8 +14,14 @@ Recognised:
 """
 import ast
 from common import *
+import failclosed
 
 SRC = 'oslo_utils/imageutils/cli.py'
+# what this translator reads (tools/gen/failclosed.py): `main` must be the one plain definition, the module names it uses the real modules
+FAILCLOSED = {'generate': [{'src': SRC, 'mod': 'oslo_utils.imageutils.cli',
+                            'functions': {'main': {'defaults': {}}},
+                            'imports': {'format_inspector': 'oslo_utils.imageutils.format_inspector', 'sys': 'sys', 'os': 'os',
+                                        'argparse': 'argparse', 'textwrap': 'textwrap'}}]}
 PURE_CALL = {'print', 'str', 'len', 'failure_reasons.append', 'exc[0]', 'e.failures.items', 'textwrap.dedent'}
 CLASSES = {'format_inspector.SafetyCheckFailed': 'X_SafetyCheckFailed', 'format_inspector.ImageFormatError': 'X_ImageFormatError',
            'Exception': 'X_Exception', 'BaseException': 'X_Exception'}
@@ -155,7 +161,9 @@ def statements():
 
 def generate():
     # the entry point `python -m oslo_utils.imageutils` must still be cli.main
+    failclosed.check_all(FAILCLOSED['generate'])
     mt = repo_ast('oslo_utils/imageutils/__main__.py')
+    if len(failclosed.bindings(mt.body, 'main')) != 1: raise GenError('__main__ binds `main` more than once')
     imp = [n for n in mt.body if isinstance(n, ast.ImportFrom)]
     if not any(n.module == 'oslo_utils.imageutils.cli' and any(a.name == 'main' and a.asname is None for a in n.names) for n in imp):
         raise GenError('__main__ does not import cli.main')
